@@ -8,8 +8,13 @@ import (
 	"fmt"
 	"go/token"
 	"go/types"
+	"os"
+	"runtime/metrics"
 	"slices"
+	"strconv"
 	"strings"
+	"sync"
+	"time"
 
 	"golang.org/x/tools/go/ssa"
 )
@@ -200,9 +205,46 @@ func (ex *Exec) concInt(v Value, k intKind) int64 {
 	panic(engineError(fmt.Sprintf("integer of type %T", v)))
 }
 
+// resourceCheck ends a long path as inconclusive when the run's wall-clock
+// budget is spent or the process heap has grown past its limit (a single
+// runaway path must not evade the budget that is otherwise checked between paths).
+func (ex *Exec) resourceCheck() {
+	if ex.w == nil || ex.w.run == nil {
+		return
+	}
+	r := ex.w.run
+	if !r.deadline.IsZero() && time.Now().After(r.deadline) {
+		panic(abortPath{outInconclusive, "wall-clock budget of the run exhausted"})
+	}
+	if heapOver() {
+		panic(abortPath{outInconclusive, "memory budget of the run exhausted"})
+	}
+}
+
+// heapOver reports whether live heap objects exceed SYMGO_MAX_HEAP_MB (default 12288).
+func heapOver() bool {
+	heapLimitOnce.Do(func() {
+		heapLimit = 12288 << 20
+		if v, err := strconv.Atoi(os.Getenv("SYMGO_MAX_HEAP_MB")); err == nil && v > 0 {
+			heapLimit = uint64(v) << 20
+		}
+	})
+	s := []metrics.Sample{{Name: "/memory/classes/heap/objects:bytes"}}
+	metrics.Read(s)
+	return s[0].Value.Kind() == metrics.KindUint64 && s[0].Value.Uint64() > heapLimit
+}
+
+var (
+	heapLimitOnce sync.Once
+	heapLimit     uint64
+)
+
 func (fr *frame) visitInstr(instr ssa.Instruction) continuation {
 	ex := fr.ex
 	ex.steps++
+	if ex.steps&(1<<20-1) == 0 {
+		ex.resourceCheck()
+	}
 	if ex.steps > ex.job.maxSteps {
 		panic(abortPath{outBudget, fmt.Sprintf("step budget of %d SSA instructions exhausted in %s", ex.job.maxSteps, fr.fn)})
 	}
@@ -489,21 +531,33 @@ func (ex *Exec) loadFrom(T types.Type, p Value) Value {
 }
 
 func (ex *Exec) iteChain(T types.Type, p *SymRef) Value {
+	// cells the index cannot reach are left out (cheap interval analysis; the
+	// bounds check has already been decided on this path)
+	first, last := 0, len(p.base)-1
+	if lo, hi := ubounds(p.idx, 0); true {
+		if lo > uint64(first) && lo <= uint64(last) {
+			first = int(lo)
+		}
+		if hi < uint64(last) && hi >= uint64(first) {
+			last = int(hi)
+		}
+	}
 	// group equal cells
 	type grp struct {
 		v    Value
 		idxs []int
 	}
 	var groups []*grp
-outer:
-	for i, c := range p.base {
-		for _, g := range groups {
-			if g.v == c {
-				g.idxs = append(g.idxs, i)
-				continue outer
-			}
+	byVal := map[Value]*grp{}
+	for i := first; i <= last; i++ {
+		c := p.base[i]
+		g := byVal[c]
+		if g == nil {
+			g = &grp{v: c}
+			byVal[c] = g
+			groups = append(groups, g)
 		}
-		groups = append(groups, &grp{v: c, idxs: []int{i}})
+		g.idxs = append(g.idxs, i)
 	}
 	if len(groups) == 1 {
 		return groups[0].v
@@ -530,8 +584,22 @@ outer:
 	for gi := len(groups) - 2; gi >= 0; gi-- {
 		g := groups[gi]
 		var conds []*Term
-		for _, i := range g.idxs {
-			conds = append(conds, ex.tc.Eq(p.idx, ex.tc.BV(64, uint64(i))))
+		// runs of consecutive indices become one range test
+		for a := 0; a < len(g.idxs); {
+			b := a
+			for b+1 < len(g.idxs) && g.idxs[b+1] == g.idxs[b]+1 {
+				b++
+			}
+			lo, hi := ex.tc.BV(64, uint64(g.idxs[a])), ex.tc.BV(64, uint64(g.idxs[b]))
+			switch {
+			case b == a:
+				conds = append(conds, ex.tc.Eq(p.idx, lo))
+			case b == a+1:
+				conds = append(conds, ex.tc.Eq(p.idx, lo), ex.tc.Eq(p.idx, hi))
+			default:
+				conds = append(conds, ex.tc.And(ex.tc.Le(lo, p.idx, false), ex.tc.Le(p.idx, hi, false)))
+			}
+			a = b + 1
 		}
 		gv := toTerm(g.v)
 		if gv.Sort != res.Sort {
